@@ -358,8 +358,13 @@ func (r *tamperRun) Main(s *sim.Sim) {
 		}
 	}
 	time.Sleep(2 * time.Second) // late replays
+	defer func() {
+		s.Teardown()
+		sc.Close()
+		conn.Close()
+	}()
 	mu.Lock()
-	defer mu.Unlock()
+	defer mu.Unlock() // released before the deferred close above runs
 	if !tampered {
 		s.Probe("victim-chunk-never-came")
 		return
@@ -417,9 +422,6 @@ func (r *tamperRun) Main(s *sim.Sim) {
 		s.Probe("replay-not-delivered")
 	}
 	_ = fmt.Sprint
-	s.Teardown()
-	sc.Close()
-	conn.Close()
 }
 
 func (r *tamperRun) Finish(s *sim.Sim) {}
